@@ -25,7 +25,7 @@ vars == <<stack, nodes, stage, prog, ret, refused, res, info>>
 AVars == {"x", "y"}                 \* assignable program variables
 Params == {"a", "n"}                \* tensor parameters (INT64 scalars)
 LoopVars == {"i", "j", "k"}          \* loop variable of the 1st / 2nd / 3rd enclosing for loop
-AllV == AVars \cup Params \cup LoopVars \cup {"w"}      \* w: reserved condition variable
+AllV == AVars \cup Params \cup LoopVars \cup {"w", "b"}      \* w: reserved loop/break condition variable; b: break condition inside a while loop
 UNDEF == -99
 LIMIT == 20000                       \* values beyond this make the input "out of range" (not judged)
 MAXTRIP == 4                         \* for loops with a larger trip count: input out of range (not judged)
@@ -49,8 +49,11 @@ EGt(a, c) == <<"gt", a, "", c>>      \* a > c
 ECall(a) == <<"call", a, "", 0>>     \* h(a) = a*2 + 1, a script sub-function
 EAttr(a) == <<"attr", a, "", 0>>     \* a * alpha, alpha an attribute parameter (value 2)
 EC(c) == <<"c", "", "", c>>
+EKw(a, b) == <<"kw", a, b, 0>>       \* op.Add(a, B=b * 1): the second operand is an EXPRESSION passed by keyword (= a + b)
 
-UsedE(e) == CASE e[1] \in {"c", "idx"} -> {} [] e[1] \in {"add", "mul", "sub", "call2"} -> {e[2], e[3]} [] OTHER -> {e[2]}
+UsedE(e) == CASE e[1] \in {"c", "idx"} -> {} [] e[1] \in {"add", "mul", "sub", "call2", "kw"} -> {e[2], e[3]} [] OTHER -> {e[2]}
+\* what analysis.py counts as used: "kw_expr_uses_ignored" - _used_vars looked at keyword arguments only when they were bare names
+UsedL(e, devs) == IF e[1] = "kw" /\ "kw_expr_uses_ignored" \in devs THEN {e[2]} ELSE UsedE(e)
 EvalE(e, env) ==
   IF \E u \in UsedE(e) : env[u] = UNDEF THEN UNDEF
   ELSE CASE e[1] = "v" -> env[e[2]]
@@ -59,6 +62,7 @@ EvalE(e, env) ==
          [] e[1] = "add" -> env[e[2]] + env[e[3]]
          [] e[1] = "mul" -> env[e[2]] * env[e[3]]
          [] e[1] = "sub" -> env[e[2]] - env[e[3]]
+         [] e[1] = "kw" -> env[e[2]] + env[e[3]]
          [] e[1] = "modc" -> env[e[2]] % e[4]
          [] e[1] = "neg" -> 0 - env[e[2]]
          [] e[1] = "call2" -> env[e[2]] * e[4] + env[e[3]]
@@ -75,7 +79,10 @@ SPAsg(v1, e1, v2, e2) == [k |-> "pasg", v |-> v1, e |-> e1, t |-> <<SAsg(v2, e2)
 SIf(c, t, f) == [k |-> "if", v |-> c, e |-> EC(0), t |-> t, f |-> f]        \* if c > 0:
 SFor(lv, b, t) == [k |-> "for", v |-> lv, e |-> b, t |-> t, f |-> <<>>]    \* for lv in range(b):
 SWhile(t) == [k |-> "while", v |-> "w", e |-> EC(0), t |-> t, f |-> <<>>]   \* while w:
-SBrk == [k |-> "brk", v |-> "w", e |-> EC(0), t |-> <<>>, f |-> <<>>]        \* if w: break
+SBrk == [k |-> "brk", v |-> "w", e |-> EC(0), t |-> <<>>, f |-> <<>>]        \* if w: break   (last statement of a for body)
+SBrkB == [k |-> "brk", v |-> "b", e |-> EC(0), t |-> <<>>, f |-> <<>>]       \* if b: break   (last statement of a while body)
+EndsBrk(b) == b # <<>> /\ b[Len(b)].k = "brk"
+BrkVar(b) == b[Len(b)].v
 
 -----------------------------------------------------------------------------
 (* Python reference semantics.  env["#"]: 0 ok, 1 read of an undefined name, 2 out of fuel *)
@@ -86,14 +93,16 @@ ExecB(b, env) == IF b = <<>> \/ Bad(env) THEN env ELSE ExecB(Tail(b), Exec(Head(
 IterFor(s, env, i, n) ==        \* body ends with SBrk => stop after the iteration in which w > 0
   IF i >= n \/ Bad(env) THEN env
   ELSE LET e1 == ExecB(s.t, [env EXCEPT ![s.v] = i])
-       IN IF ~Bad(e1) /\ s.t # <<>> /\ s.t[Len(s.t)].k = "brk" /\ e1["w"] > 0 THEN e1
+       IN IF ~Bad(e1) /\ EndsBrk(s.t) /\ e1[BrkVar(s.t)] > 0 THEN e1
           ELSE IterFor(s, e1, i + 1, n)
 IterWhile(s, env, fuel) ==
   IF Bad(env) THEN env
   ELSE IF env["w"] = UNDEF THEN [env EXCEPT !["#"] = 1]
   ELSE IF env["w"] <= 0 THEN env
   ELSE IF fuel = 0 THEN [env EXCEPT !["#"] = 2]
-  ELSE IterWhile(s, ExecB(s.t, env), fuel - 1)
+  ELSE LET e1 == ExecB(s.t, env)
+       IN IF ~Bad(e1) /\ EndsBrk(s.t) /\ e1[BrkVar(s.t)] > 0 THEN e1      \* break leaves the loop whatever the loop condition says
+          ELSE IterWhile(s, e1, fuel - 1)
 Exec(s, env) ==
   CASE s.k = "asg" -> LET x == EvalE(s.e, env) IN IF x = UNDEF THEN [env EXCEPT !["#"] = 1]
                                                   ELSE IF x > LIMIT \/ x < -LIMIT THEN [env EXCEPT !["#"] = 3]   \* keep TLC's 32-bit integers safe
@@ -108,7 +117,7 @@ Exec(s, env) ==
     [] s.k = "for" -> LET n == EvalE(s.e, env) IN IF n = UNDEF THEN [env EXCEPT !["#"] = 1]
                                                   ELSE IF n > MAXTRIP THEN [env EXCEPT !["#"] = 3] ELSE IterFor(s, env, 0, n)
     [] s.k = "while" -> IterWhile(s, env, FUEL)
-    [] s.k = "brk" -> IF env["w"] = UNDEF THEN [env EXCEPT !["#"] = 1] ELSE env
+    [] s.k = "brk" -> IF env[s.v] = UNDEF THEN [env EXCEPT !["#"] = 1] ELSE env
 
 -----------------------------------------------------------------------------
 (* analysis.py *)
@@ -139,13 +148,13 @@ FixWhile(s, out, prev, cur, devs) ==
                   \cup (IF "loop_livein_drops_liveout" \in devs THEN {} ELSE out)
        IN FixWhile(s, out, cur, nxt, devs)
 LiveS(s, out, devs) ==
-  CASE s.k = "asg" -> (out \ {s.v}) \cup UsedE(s.e)
+  CASE s.k = "asg" -> (out \ {s.v}) \cup UsedL(s.e, devs)
     [] s.k = "pasg" -> (out \ PDefs(s)) \cup PUses(s)
     [] s.k = "if" -> LiveB(s.t, out, devs) \cup LiveB(s.f, out, devs) \cup {s.v}
     [] s.k = "for" -> FixFor(s, out, {"__none__"}, out, devs)       \* range(bound) is evaluated once, before the loop
                       \cup (IF "for_bound_not_live" \in devs THEN {} ELSE UsedE(s.e))
     [] s.k = "while" -> FixWhile(s, out, {"__none__"}, out \cup {s.v}, devs)
-    [] s.k = "brk" -> out
+    [] s.k = "brk" -> out \cup {s.v}
 \* the live-out the analysis records for the body of a loop = the fix-point value (last visit)
 BodyOut(s, out, devs) == IF s.k = "for" THEN FixFor(s, out, {"__none__"}, out, devs) ELSE LiveS(s, out, devs)
 
@@ -153,13 +162,13 @@ BodyOut(s, out, devs) == IF s.k = "for" THEN FixFor(s, out, {"__none__"}, out, d
 RECURSIVE ExpS(_, _, _), ExpB(_, _, _)
 ExpB(b, out, devs) == IF b = <<>> THEN out ELSE ExpS(Head(b), ExpB(Tail(b), out, devs), devs)
 ExpS(s, out, devs) ==
-  CASE s.k = "asg" -> (out \ {s.v}) \cup UsedE(s.e)
+  CASE s.k = "asg" -> (out \ {s.v}) \cup UsedL(s.e, devs)
     [] s.k = "pasg" -> (out \ PDefs(s)) \cup PUses(s)
     [] s.k = "if" -> ExpB(s.t, out, devs) \cup ExpB(s.f, out, devs) \cup {s.v}
     \* the loop may run zero times: it does not kill its variable ("exposed_for_kills_var": the code removed it from live_out)
     [] s.k = "for" -> (ExpB(s.t, {}, devs) \ {s.v}) \cup UsedE(s.e) \cup (IF "exposed_for_kills_var" \in devs THEN out \ {s.v} ELSE out)
     [] s.k = "while" -> ExpB(s.t, {}, devs) \cup {s.v} \cup out
-    [] s.k = "brk" -> out
+    [] s.k = "brk" -> out \cup {s.v}
 Exposed(b, devs) == ExpB(b, {}, devs)
 
 IfOutputs(s, out) == Assigned(s) \cap out
@@ -228,7 +237,7 @@ GIterFor(s, outer, carried, i, n, bout, devs) ==
                                    ELSE IF v \in bout.Sv \/ v = "#" THEN carried[v] ELSE outer[v]]
            e1 == GExecB(s.t, start, bout.o, devs)
            nxt == Restrict(carried, e1, bout.Sv)
-       IN IF ~Bad(e1) /\ s.t[Len(s.t)].k = "brk" /\ e1["w"] > 0 THEN nxt
+       IN IF ~Bad(e1) /\ EndsBrk(s.t) /\ e1[BrkVar(s.t)] > 0 THEN nxt
           ELSE GIterFor(s, outer, nxt, i + 1, n, bout, devs)
 GIterWhile(s, outer, carried, cond, fuel, bout) ==
   IF Bad(carried) THEN carried
@@ -236,7 +245,13 @@ GIterWhile(s, outer, carried, cond, fuel, bout) ==
   ELSE IF fuel = 0 THEN [carried EXCEPT !["#"] = 2]
   ELSE LET start == [v \in EnvV |-> IF v \in bout.Sv \/ v = "#" THEN carried[v] ELSE outer[v]]
            e1 == GExecB(s.t, start, bout.o, bout.devs)
-       IN GIterWhile(s, outer, Restrict(carried, e1, bout.Sv), IF Bad(e1) THEN 0 ELSE e1["w"], fuel - 1, bout)
+           \* the body's condition output: keep going while the loop condition holds and the break condition does not
+           \* ("while_break_ignores_cond": the code emitted Not(break condition) only)
+           go == IF Bad(e1) THEN 0
+                 ELSE IF EndsBrk(s.t)
+                      THEN (IF e1[BrkVar(s.t)] > 0 THEN 0 ELSE IF "while_break_ignores_cond" \in bout.devs THEN 1 ELSE e1["w"])
+                      ELSE e1["w"]
+       IN GIterWhile(s, outer, Restrict(carried, e1, bout.Sv), go, fuel - 1, bout)
 GExec(s, env, out, devs) ==
   CASE s.k = "asg" -> Exec(s, env)
     [] s.k = "pasg" -> IF "tuple_assign_sequential" \in devs THEN ExecB(<<SAsg(s.v, s.e), s.t[1]>>, env) ELSE Exec(s, env)
@@ -258,7 +273,7 @@ GExec(s, env, out, devs) ==
 AsgMenu == LET base == {EV("a"), EV("x"), EV("y"), EAddC("x", 1), EAddC("y", 1), EMul("x", "y"), EAdd("x", "a")}
                rich == {ECall("x"), EAttr("y"), EAddC("a", -1), EAddC("x", -1)} \cup {EAdd("y", stack[d].v) : d \in {d \in 1..Len(stack) : stack[d].k = "for"}}
                tiny == {EV("a"), EAddC("x", 1), EMul("x", "y"), EV("y")}     \* small alphabet for deeper exhaustive structure
-               ops == {EV("a"), EAddC("x", 1), EIdx(1), EIdx(2), ECall2("x", "y", 3), ECall2L("x"), EModC("x", 3), ENeg("y")}   \* other operators / call forms
+               ops == {EV("a"), EAddC("x", 1), EIdx(1), EIdx(2), ECall2("x", "y", 3), ECall2L("x"), EModC("x", 3), ENeg("y"), EKw("a", "x")}   \* other operators / call forms
                \* "lvar": a loop variable that also exists outside its loop (defined before, read after: Python leaves the last index in it)
                lvar == IF "lvar" \in Kinds THEN {[v |-> "x", e |-> EAdd("x", "i")], [v |-> "x", e |-> EAdd("x", "j")], [v |-> "i", e |-> EAddC("i", 1)]} ELSE {}
            IN [v : AVars, e : IF Ops THEN ops ELSE IF Tiny THEN tiny ELSE IF Rich THEN base \cup rich \cup ops ELSE base] \cup lvar
@@ -311,8 +326,9 @@ OpenWhile == /\ "while" \in Kinds /\ CanAdd /\ Len(stack) <= MaxDepth /\ nodes +
              /\ nodes' = nodes + 3
              /\ UNCHANGED <<stage, prog, ret, refused, res, info>>
 \* `w = cond; if w: break` as the last statements of a for body
-AddBreak == /\ "brk" \in Kinds /\ stage = "build" /\ Top.k = "for" /\ Top.blk # <<>> /\ ~HasBrk(Top.blk) /\ nodes + 2 <= MaxNodes
-            /\ \E c \in BrkConds : stack' = AppendTop(AppendTop(stack, SAsg("w", c)), SBrk)
+AddBreak == /\ "brk" \in Kinds /\ stage = "build" /\ Top.k \in {"for", "while"} /\ Top.blk # <<>> /\ ~HasBrk(Top.blk) /\ nodes + 2 <= MaxNodes
+            /\ \E c \in BrkConds : stack' = IF Top.k = "for" THEN AppendTop(AppendTop(stack, SAsg("w", c)), SBrk)
+                                              ELSE AppendTop(AppendTop(stack, SAsg("b", c)), SBrkB)
             /\ nodes' = nodes + 2
             /\ UNCHANGED <<stage, prog, ret, refused, res, info>>
 Close == /\ stage = "build" /\ Len(stack) > 1
@@ -321,7 +337,10 @@ Close == /\ stage = "build" /\ Len(stack) > 1
          /\ LET fr == Top
                 st == CASE fr.k = "if" -> IF fr.ph = "then" THEN SIf(fr.v, fr.blk, <<>>) ELSE SIf(fr.v, fr.saved, fr.blk)
                         [] fr.k = "for" -> SFor(fr.v, fr.e, fr.blk)
-                        [] fr.k = "while" -> SWhile(Append(fr.blk, SAsg("w", fr.e)))
+                        \* the loop condition is recomputed at the end of the body, before a trailing break
+                        [] fr.k = "while" -> IF HasBrk(fr.blk)
+                                             THEN SWhile(SubSeq(fr.blk, 1, Len(fr.blk) - 2) \o <<SAsg("w", fr.e)>> \o SubSeq(fr.blk, Len(fr.blk) - 1, Len(fr.blk)))
+                                             ELSE SWhile(Append(fr.blk, SAsg("w", fr.e)))
             IN stack' = AppendTop(SubSeq(stack, 1, Len(stack) - 1), st)
          /\ UNCHANGED <<nodes, stage, prog, ret, refused, res, info>>
 
@@ -379,5 +398,9 @@ NoDevs == {}
 RealDevs == {}
 \* "tuple_assign_sequential" (x, y = y, x translated as x = y; y = x) was found by this spec and is fixed as well
 \* "loop_var_after", "carried_shadows_loop_var", "exposed_for_kills_var" (for variables that live outside their loop): found by this spec, fixed
-OldDevs == {"loop_livein_drops_liveout", "for_bound_not_live", "tuple_assign_sequential", "loop_var_after", "carried_shadows_loop_var", "exposed_for_kills_var"}
+\* "kw_expr_uses_ignored": found while transcribing analysis.py for Converter.tla, reproduced on the real converter, fixed
+WhileBrkDevs == {"while_break_ignores_cond"}
+WhileBrkKinds == {"while", "brk"}
+OldDevs == {"while_break_ignores_cond", "loop_livein_drops_liveout", "for_bound_not_live", "tuple_assign_sequential", "loop_var_after", "carried_shadows_loop_var", "exposed_for_kills_var", "kw_expr_uses_ignored"}
+KwDevs == {"kw_expr_uses_ignored"}
 =============================================================================
